@@ -754,14 +754,22 @@ fn main() {
         hcore::out::silence_panics();
     }
     let out_path = std::env::args().nth(2).expect("usage: drv_replay <cases.jsonl> <trace.ndjson>");
-    let settle_mode = std::env::args().nth(3).as_deref() == Some("--settle");
+    let settle_mode = std::env::args().any(|a| a == "--settle");
     rec::install();
     // one pool for all behaviours; the idle timeout is long on purpose: a worker that retires between
     // `spawn` and the blocking `send` of AsyncifyPool::dispatch would hang the dispatcher (see C17)
     let pool = compio_driver::AsyncifyPool::new(4, Duration::from_secs(30));
     let mut rep = Report::new();
     let mut trace: Vec<String> = vec![];
-    for case in cases_from_arg() {
+    // `--from N`: skip the first N behaviours (the check restarts after a crash of the code under test)
+    let from: u64 = std::env::args().position(|a| a == "--from").and_then(|i| std::env::args().nth(i + 1)).and_then(|v| v.parse().ok()).unwrap_or(0);
+    for (idx, case) in cases_from_arg().enumerate() {
+        if (idx as u64) < from {
+            rep.cases += 1;
+            continue;
+        }
+        // progress marker: if the process dies (SIGSEGV in the code under test) the check knows the behaviour
+        eprintln!("CASE {idx}");
         let r = std::panic::catch_unwind(std::panic::AssertUnwindSafe(|| run_case(&case, &mut rep, &mut trace, settle_mode, &pool)));
         if let Err(e) = r {
             rep.problem("panic", json!({"site": case.get("driver").and_then(|d| d.as_str()).unwrap_or("iour"), "action": "replay"}), format!("panic during replay: {}", panic_msg(e)), &case, 0);
